@@ -226,6 +226,7 @@ class Source:
         self.timeout = 120
         self.big = False
         self.glyphs_text = None
+        self.extra = []           # extra CLI flags
 
     # -- helpers
     def add_glyph(self, name, layers, unicodes=None):
@@ -267,8 +268,11 @@ class Source:
         raise KeyError(name)
 
     # -- items
-    def add(self, field, v, case):
-        getattr(self, "f_" + field)(v, case)
+    def add(self, field, v, case, item=None):
+        if field in ("comp_xx_nx", "comp_xx_fl"):
+            getattr(self, "f_" + field)(v, case, item)
+        else:
+            getattr(self, "f_" + field)(v, case)
 
     def _coord(self, v, axis, g):
         pts = coord_points(v, axis)
@@ -345,6 +349,34 @@ class Source:
     def f_comp_xy(self, v, case):
         # UFO xyScale is the second coefficient of the affine (y' = xyScale * x + yScale * y)
         self._component("kxy", [1, v / 16384.0, 0, 1, 0, 0], "yx")
+
+    def _composed(self, top, mid, item, export_mid):
+        """`top` = component of `mid` scaled a, `mid` = component of `a` scaled b (x scales, q14): the drawn glyph
+        is `a` scaled a*b.  The value only exists in the font if the two levels are merged into one component."""
+        fa, fb = item["a"] / 16384.0, item["b"] / 16384.0
+        self.add_glyph(mid, self.per_master({"width": 500, "components": [{"base": "a", "xform": [fb, 0, 0, 1, 0, 0]}]}))
+        self.add_glyph(top, self.per_master({"width": 500, "components": [{"base": mid, "xform": [fa, 0, 0, 1, 0, 0]}]}))
+        self.glyphs = [g for g in self.glyphs if g != mid]
+        if not export_mid:
+            self.mf["skip_export"] = list(self.mf.get("skip_export") or []) + [mid]
+        xf = [fa * fb, 0, 0, 1, 0, 0]
+        expected = [[xform_poly(p, xf) for p in polys] for polys in self.base_polys()]
+
+        def stored(rb):
+            gl = rb["glyphs"].get(top) or {}
+            comps = gl.get("components") or []
+            # only a single component that references `a` directly carries the composed value
+            if gl.get("kind") != "composite" or len(comps) != 1 or comps[0]["by_point"] or comps[0]["name"] != "a":
+                return False, 0
+            return True, comps[0]["xx"]
+        self.probes.append(self.outline_probe(top, expected, stored))
+
+    def f_comp_xx_nx(self, v, case, item):
+        self._composed("nn", "np", item, export_mid=False)
+
+    def f_comp_xx_fl(self, v, case, item):
+        self._composed("ft", "fm", item, export_mid=True)
+        self.extra = ["--flatten-components=true"]
 
     def f_advance(self, v, case):
         self.add_glyph("w", self.per_master({"width": v, "contours": [contour(SQ_R)]}))
@@ -756,7 +788,7 @@ def std_names():
 def make_source(case, outdir):
     s = Source(case["src"])
     for it in case["items"]:
-        s.add(it["field"], it["v"], case)
+        s.add(it["field"], it["v"], case, it)
     os.makedirs(outdir, exist_ok=True)
     if s.glyphs_text is not None:
         s.path = os.path.join(outdir, "MiniWdth.glyphs")
@@ -780,11 +812,12 @@ def observe(case, s, outdir, parallel=False):
         # two worker threads per compiler process: the box is shared and 8 compilers run at a time; no
         # backtraces: symbolising one takes the debug binary tens of seconds on a loaded machine
         env = {"RAYON_NUM_THREADS": "2", "RUST_BACKTRACE": "0"}
-        o = common.run_fontc(s.path, out, timeout=s.timeout, binary=binary, mem_gb=16, env=env)
+        o = common.run_fontc(s.path, out, s.extra, timeout=s.timeout, binary=binary, mem_gb=16, env=env)
         if o["how"] == "timedout":
             # a build of these tiny sources takes well under a second; before calling it a hang give it
             # up to ten times the time once more (the machine may just be overloaded)
-            o = common.run_fontc(s.path, out, timeout=min(10 * s.timeout, 1800), binary=binary, mem_gb=16, env=env)
+            o = common.run_fontc(s.path, out, s.extra, timeout=min(10 * s.timeout, 1800), binary=binary, mem_gb=16,
+                                 env=env)
             o["retried_after_timeout"] = True
         o["sha"] = common.sha256_file(out) if os.path.exists(out) else ""
         o["out"] = out
@@ -864,7 +897,11 @@ def item_obs(s, o, rb):
 
 
 def case_key(case):
-    return "%s|%s" % (case["src"], "+".join("%s=%d" % (it["field"], it["v"]) for it in case["items"]))
+    def one(it):
+        if it.get("a"):
+            return "%s=%d(%dx%d)" % (it["field"], it["v"], it["a"], it["b"])
+        return "%s=%d" % (it["field"], it["v"])
+    return "%s|%s" % (case["src"], "+".join(one(it) for it in case["items"]))
 
 
 def select_cases(ctx, cases):
@@ -1064,7 +1101,7 @@ def main(ctx):
             if (v["dbg_build"] == "Font" and v["rel_build"] == "Font" and v["dbg_ok"] and v["rel_ok"]
                     and v["dbg_items"] == v["rel_items"] and s.mf is not None and os.path.exists(s.path)):
                 # only the bytes differ: is it the profile, or is the output not repeatable at all (C01's business)?
-                again = common.run_fontc(s.path, obs["dbg"]["out"] + ".again", timeout=s.timeout, binary=BIN["dbg"],
+                again = common.run_fontc(s.path, obs["dbg"]["out"] + ".again", s.extra, timeout=s.timeout, binary=BIN["dbg"],
                                          mem_gb=16, env={"RAYON_NUM_THREADS": "2", "RUST_BACKTRACE": "0"})
                 sha2 = common.sha256_file(obs["dbg"]["out"] + ".again") if again["font"] == "valid" else ""
                 if sha2 != obs["dbg"]["sha"]:
